@@ -126,6 +126,9 @@ pub fn epoll(arg: &str) -> String {
                 let data = unhex(it.next().unwrap_or("e"));
                 if let Some(Some(c)) = conns.get_mut(i) {
                     khttp::verif::emit(format!("CS:{}", ports[i]));
+                    if data.starts_with(b"GET /slow/") {
+                        *seen_slow.entry(ports[i]).or_insert(0) += 1;
+                    }
                     let _ = c.write_all(&data);
                 }
             }
@@ -157,15 +160,14 @@ pub fn epoll(arg: &str) -> String {
             }
             "w" => std::thread::sleep(Duration::from_millis(3)),
             "y" => {
-                // y<i>: wait until one more `/slow` handler of connection i has started than at its previous `y`
+                // y<i>: wait until every `/slow` request sent so far on connection i has had its handler started
                 let i = idx(rest);
                 let port = ports.get(i).copied().unwrap_or(0);
-                let before = seen_slow.get(&port).copied().unwrap_or(0);
+                let want = seen_slow.get(&port).copied().unwrap_or(0);
                 let t = Instant::now();
                 loop {
                     let now = slow_started.lock().unwrap().get(&port).copied().unwrap_or(0);
-                    if now > before || t.elapsed() > Duration::from_millis(400) {
-                        seen_slow.insert(port, now);
+                    if now >= want || t.elapsed() > Duration::from_millis(400) {
                         break;
                     }
                     std::thread::sleep(Duration::from_micros(300));
